@@ -35,11 +35,28 @@ structure FileSt where
   blocks : Array Blk := #[]
   streams : List (String × List ID) := []
 
+/-- one source feature of a case the builder died on: file, type, namespace, namespaces of its path points and
+of its point members -/
+structure Src where
+  file : Nat
+  typ : Nat
+  ns : String
+  refs : List String
+  pts : List String
+
+/-- finding C01 `point-member-without-block`: a relation lists a point in a namespace in which its file has neither
+a point nor a path point — `compact.Build` dies ("No builder for type point in namespace N") -/
+def pointMemberWithoutBlock (srcs : List Src) : Bool :=
+  srcs.any fun r => r.typ == 3 && r.pts.any fun ns =>
+    !(srcs.any fun p => p.file == r.file && ((p.typ == 0 && p.ns == ns) || p.refs.contains ns))
+
 structure St where
   nss : Nat := 0
   files : Array FileSt := #[]
   order : List Nat := []
   world : List Blk := []
+  chain : List Blk := []
+  srcs : List Src := []
 
 def renderID (i : ID) : String := s!"{i.typ}/{i.ns}/{i.val}"
 
@@ -144,10 +161,41 @@ def toFile (f : FileSt) : Fl :=
 def step (s : St) (op impl : String) : St × Verdict :=
   match words op with
   | ["reset"] => ({}, .ok)
+  | "src" :: k :: t :: ns :: _ =>
+    match k.toNat?, t.toNat?, op.splitOn " refs=" with
+    | some k, some t, [_, rest] =>
+      match rest.splitOn " pts=" with
+      | [r, p] =>
+        match parseBracket r, parseBracket p with
+        | some rs, some ps => ({ s with srcs := ⟨k, t, ns, rs, ps⟩ :: s.srcs }, .ok)
+        | _, _ => (s, .bad)
+      | _ => (s, .bad)
+    | _, _, _ => (s, .bad)
   | ["build"] =>
-    -- the child died inside compact.Build*: no files, nothing to merge — the case is outside the property's
-    -- domain (counted in the histogram as child:builder-crash); any other death (`crash`, `hang`) is rejected
-    if impl == "builder-crash" then (s, .ok) else (s, .bad)
+    -- the child died inside compact.Build*: accepted only for an input class known to kill the builder (C01's
+    -- findings), recognised on the source the harness describes; any other builder death is reported, and a
+    -- death outside the builder (`crash`, `hang`) is rejected
+    if impl == "builder-crash" then
+      (s, if pointMemberWithoutBlock s.srcs then .ok else .propfail "build-crash")
+    else (s, .bad)
+  | "chain" :: _ =>
+    match (sdrop op 6).splitOn "] [" with
+    | [a, b] =>
+      match parseNats (a ++ "]"), parseNats ("[" ++ b) with
+      | some tops, some bases =>
+        let blocksOf (ks : List Nat) := mergeBlocks ((ks.filterMap (fun k => s.files[k]?)).map toFile)
+        -- the chain's own blocks are scanned first, then `f.base`
+        ({ s with chain := blocksOf tops ++ blocksOf bases }, if impl == "ok" then .ok else .diff "ok")
+      | _, _ => (s, .bad)
+    | _ => (s, .bad)
+  | ["cfind", id] =>
+    match parseID id with
+    | some id => (s, judge impl "-" ((find s.chain id).getD "nil") "chain-lookup")
+    | none => (s, .bad)
+  | ["cloc", id] =>
+    match parseID id with
+    | some id => (s, judge impl "-" ((loc s.chain id).getD "err") "chain-location")
+    | none => (s, .bad)
   | "nss" :: _ =>
     match parseBracket (sdrop op 4) with
     | some (w :: ws) => if w == "~" && strictlyAscending ws && !ws.contains "~" then ({ s with nss := ws.length + 1 }, .ok) else (s, .bad)
@@ -290,6 +338,20 @@ def step (s : St) (op impl : String) : St × Verdict :=
       if !strictIDs ids then (s, .propfail "search-id-order-no-duplicates")
       else (s, judge m u model "search-union")
     | none => (s, if u != "-" then .propfail "search-union" else .diff model)
+  | [k, id] =>
+    if k == "rels" || k == "refs" || k == "areas" || k == "trav" then
+      let (m, u) := splitBoth impl
+      if u == "-" || m == u then (s, .ok)
+      else if k == "rels" || k == "refs" then
+        -- no model answer: merged vs union; the known class is recognised on the files' contents
+        let fs := (s.order.filterMap (fun k => s.files[k]?)).map toFile
+        match parseID id, parseIDs m, parseIDs u with
+        | some id, some ms, some us =>
+          if crossFileOnly fs id ms us then (s, .propfail "references-union class=cross-file-referrer")
+          else (s, .propfail "references-union")
+        | _, _, _ => (s, .propfail "references-union")
+      else (s, .propfail "references-union")
+    else (s, .bad)
   | _ => (s, .bad)
 
 def family : Family := { σ := St, init := {}, step := step }
